@@ -172,6 +172,7 @@ type harnessState struct {
 	forever chan struct{} // never closed
 
 	scratch    []tea.Cmd
+	dropped    map[string]int
 	lastKey    atomic.Value // key of the message of the most recent Update
 	afterFired int32
 
@@ -184,7 +185,7 @@ func newHarnessState(sc *pScenario) *harnessState {
 		paused: map[string]int{}, permits: map[string]int{}, open: map[string]bool{},
 		gates: map[string]chan struct{}{}, sendDone: make([]bool, len(sc.Senders)),
 		forever:    make(chan struct{}),
-		filterDrop: map[string]bool{}, filterPause: map[string]bool{}, filterPanic: map[string]bool{},
+		filterDrop: map[string]bool{}, filterPause: map[string]bool{}, filterPanic: map[string]bool{}, dropped: map[string]int{},
 	}
 	if f := sc.Opts.Filter; f != nil {
 		for _, k := range f.Drop {
@@ -685,7 +686,19 @@ func (h *harnessState) filter(m tea.Model, msg tea.Msg) tea.Msg {
 		panic("scenario panic " + label)
 	}
 	out := msg
-	if has(h.filterDrop) {
+	dropFirst := false
+	if f.DropFirst != nil {
+		h.mu.Lock()
+		for _, k := range pKeyAliases(key) {
+			if n, ok := f.DropFirst[k]; ok && h.dropped[k] < n {
+				h.dropped[k]++
+				dropFirst = true
+				break
+			}
+		}
+		h.mu.Unlock()
+	}
+	if has(h.filterDrop) || dropFirst {
 		out = nil
 	} else {
 		for _, k := range pKeyAliases(key) {
